@@ -6,8 +6,8 @@ from . import c06rig as R
 from . import sx as SX
 
 FLAGSETS = list(itertools.product((0, 1), repeat=4))
-REPAIRED = [1, 1, 1]
-UNREPAIRED = [0, 0, 0]
+REPAIRED = [1, 1, 1, 1, 1]
+UNREPAIRED = [0, 0, 0, 0, 0]
 
 KEY_ENCRYPT_ACK = "encrypt notification with participant attribute"
 KEY_ACCOUNT_IB = "ib account stanza delivered to the application as None"
@@ -38,7 +38,7 @@ def kinds():
 # ------------------------------------------------------------------ table rows <-> real features
 def check_row(row, feats):
     """row = put_kind record from the model; feats = features of a real stanza/entity."""
-    name, send, mod, tag, xmlns, typ, tfree, mro, kids, cfree, hasproto, mt, conv, ext, skdm, up, ans = row
+    name, send, mod, tag, xmlns, typ, tfree, mro, kids, cfree, hasproto, mt, conv, ext, skdm, more, up, ans = row
     probs = []
     if feats[0] != tag:
         probs.append("tag %r != %r" % (feats[0], tag))
@@ -50,8 +50,8 @@ def check_row(row, feats):
         probs.append("class chain %r != %r" % (feats[7], mro))
     if not cfree and [c[0] for c in feats[8]] != kids:
         probs.append("children %r != %r" % ([c[0] for c in feats[8]], kids))
-    if [feats[9], feats[10], feats[11], feats[12], feats[13]] != [hasproto, mt, conv, ext, skdm]:
-        probs.append("proto/payload features %r != %r" % (feats[9:14], [hasproto, mt, conv, ext, skdm]))
+    if [feats[9], feats[10], feats[11], feats[12], feats[13], feats[14]] != [hasproto, mt, conv, ext, skdm, more]:
+        probs.append("proto/payload features %r != %r" % (feats[9:15], [hasproto, mt, conv, ext, skdm, more]))
     return probs
 
 
@@ -340,6 +340,135 @@ def retry_sweep(ctx, model, nvec, profile, stats):
                                                            "expected_up": exp_up, "exception": repr(exc)})
 
 
+# ------------------------------------------------------------------ histories on ONE stack instance
+def _hist_run(K, hist, flags, ax, profile):
+    """hist = [(kind name, gen seed, id override or None)]; returns per step (kind, node, feats, obs, raw)"""
+    rig = R.Rig(flags, ax, profile)
+    by = K.by_name()
+    out = []
+    for name, seed, idov in hist:
+        k = by[name]
+        node = gen_obj(k, seed)
+        if idov is not None and node.attributes.get("id") is not None:
+            node.attributes["id"] = idov
+        feats = R.node_features(node)
+        ups, downs, exc = rig.recv(node)
+        obs = R.norm_actions(R.abstract_obs(ups, downs, exc))
+        out.append((k, node, feats, obs, {"ups": ups, "downs": downs, "exc": exc, "node": node}))
+    return out
+
+
+def _hist_problems(model, steps, flags, ax, judge_answers):
+    """-> (index of first bad step, kind of problem, details) or None"""
+    res = None
+    if model is not None:
+        res = model.call("run_trace", model_arg(flags, ax, [[0, st[2]] for st in steps]))
+    for i, (k, node, feats, obs, raw) in enumerate(steps):
+        if k["domain"]:
+            orc = [o for o in oracle_recv(k, flags, raw) if judge_answers or o[0] != "oracle:answers"]
+            orc = [o for o in orc if o[2] is None]
+            if orc:
+                return i, orc[0][0], "; ".join(o[1] for o in orc)
+        if res is not None:
+            if isinstance(res, tuple):
+                return i, "correspondence:C06.history", "model run failed %r" % (res,)
+            if norm_model(res[i])[0] != obs:
+                return i, "correspondence:C06.history", "model %r impl %r" % (jsonable(res[i][0]), jsonable(obs))
+    return None
+
+
+def history_sweep(ctx, model, select, nhist, stats, judge_answers, length=(6, 16)):
+    """sequences of incoming stanzas through ONE stack instance, with ids reused and whole stanzas repeated: the
+    duties are per stanza whatever was received before (C07_*_history); compared step by step with run_trace"""
+    K = kinds()
+    names = [k["name"] for k in K.KINDS if select(k) and k["dir"] == "recv" and k["domain"]
+             and not k["name"].startswith("recv.auth") and "stream" not in k["name"]]
+    stats.setdefault("histories", 0)
+    stats.setdefault("history_steps", 0)
+    stats.setdefault("history_id_reuses", 0)
+    for h in range(nhist):
+        r = random.Random(ctx.rng.getrandbits(48))
+        flags = r.choice(FLAGSETS) if h % 3 else FLAGSETS[-1]
+        ax = r.randint(0, 1)
+        n = r.randint(*length)
+        hist, ids = [], []
+        for _ in range(n):
+            x = r.random()
+            if hist and x < 0.2:
+                hist.append(r.choice(hist))                         # the very same stanza again
+                stats["history_id_reuses"] += 1
+            else:
+                name = r.choice(names)
+                idov = r.choice(ids) if (ids and x < 0.55) else None   # another stanza carrying an id seen before
+                if idov is not None:
+                    stats["history_id_reuses"] += 1
+                hist.append((name, r.getrandbits(48), idov))
+            k0 = K.by_name()[hist[-1][0]]
+            node = gen_obj(k0, hist[-1][1])
+            ids.append(hist[-1][2] or node.attributes.get("id") or "x")
+        stats["profiles"] = stats.get("profiles", 0) + 1
+        profile = R.make_profile(ctx.scratch, stats["profiles"])
+        try:
+            steps = _hist_run(K, hist, flags, ax, profile)
+        except Exception as e:
+            ctx.violation("harness:history_rig_failed", {"history": hist, "error": repr(e)}, found_input=False)
+            continue
+        stats["histories"] += 1
+        stats["history_steps"] += len(steps)
+        stats["evaluations"] += len(steps)
+        bad = _hist_problems(model, steps, flags, ax, judge_answers)
+        if bad is None:
+            continue
+        # shrink: cut after the failing step, then drop earlier stanzas one at a time while it still fails
+        i = bad[0]
+        cur = hist[:i + 1]
+        changed = True
+        while changed and len(cur) > 1:
+            changed = False
+            for j in range(len(cur) - 1):
+                cand = cur[:j] + cur[j + 1:]
+                stats["profiles"] += 1
+                try:
+                    st2 = _hist_run(K, cand, flags, ax, R.make_profile(ctx.scratch, stats["profiles"]))
+                except Exception:
+                    continue
+                b2 = _hist_problems(model, st2, flags, ax, judge_answers)
+                if b2 is not None and b2[0] == len(cand) - 1 and b2[1] == bad[1]:
+                    cur, bad, changed = cand, b2, True
+                    break
+        stats["profiles"] += 1
+        st3 = _hist_run(K, cur, flags, ax, R.make_profile(ctx.scratch, stats["profiles"]))
+        case = {"history": [list(x) for x in cur], "flags": dict(zip(R.FLAGS, flags)), "axolotl": ax,
+                "failing_step": len(cur) - 1, "problem": bad[2],
+                "stanzas": [R.show(x[1]) for x in st3],
+                "observed_last": {"up": [type(u).__name__ for u in st3[-1][4]["ups"]],
+                                  "down": [R.show(x) for x in st3[-1][4]["downs"]],
+                                  "exception": repr(st3[-1][4]["exc"])}}
+        ctx.violation(bad[1] if bad[1].startswith("oracle") else "correspondence:C06.history", case,
+                      found_input=bad[1].startswith("oracle"))
+        stats["mismatches"] += 0 if bad[1].startswith("oracle") else 1
+        stats["oracle_failures"] += 1 if bad[1].startswith("oracle") else 0
+
+
+def replay_history(ctx, data, profile, judge_answers):
+    case = data["case"]
+    K = kinds()
+    flags = tuple(case["flags"][f] for f in R.FLAGS)
+    hist = [tuple(x) for x in case["history"]]
+    steps = _hist_run(K, hist, flags, case["axolotl"], profile)
+    bad = _hist_problems(None, steps, flags, case["axolotl"], judge_answers)
+    for i, st in enumerate(steps):
+        print("step %d: %s -> up %s down %s exc %r" % (i, R.show(st[1]), [type(u).__name__ for u in st[4]["ups"]],
+                                                       [R.show(x) for x in st[4]["downs"]], st[4]["exc"]))
+    print("expected: every stanza is delivered / answered exactly as if it were the first one the stack ever saw")
+    if bad is not None:
+        print("problem at step %d: %s" % (bad[0], bad[2]))
+        print("VIOLATION property=%s replay=(replayed)" % ctx.pid)
+        return 1
+    print("property holds on this history now")
+    return 0
+
+
 def new_stats():
     return {"evaluations": 0, "per_kind": {}, "distinct": set(), "oracle_failures": 0, "mismatches": 0,
             "table_kinds_seen": set(), "reply_cases": 0}
@@ -349,6 +478,8 @@ def replay_case(ctx, data, profile):
     """re-run a recorded case on the implementation; 1 if the property oracle still fails"""
     case = data["case"]
     K = kinds()
+    if "history" in case:
+        return replay_history(ctx, data, profile, ctx.pid == "C07")
     if "request" in case and "gen_seed" in case:
         rq = [q for q in K.REQS if q["name"] == case["request"]][0]
         flags = tuple(case["flags"][f] for f in R.FLAGS)
